@@ -60,9 +60,9 @@ class Run:
         known = {e["key"] for e in load_known() if e.get("property") == self.prop and e.get("status") == "known"}
         failing = {o["rule"] for o in self.obs if not o["ok"] and o["key"] not in known}
         for rule, n in self.floors.items():
-            # the floor guards a *pass* against vacuity; a rule that already reports a concrete failed obligation skips the
-            # obligations that depend on it, and the report stands
-            if counts.get(rule, 0) < n and rule not in failing:
+            # the floor guards a *pass* against vacuity; when the check already reports a concrete failed obligation (of this or of
+            # another rule -- one change often removes an instance of one rule and breaks an obligation of another) the report stands
+            if counts.get(rule, 0) < n and not failing:
                 raise AnalysisError("rule %s matched %d instances, below its floor %d (vacuity guard)"
                                     % (rule, counts.get(rule, 0), n))
         return counts
